@@ -38,19 +38,19 @@ def corpus():
 
 def run(out):
     rng = random.Random(out.seed)
-    nstreams = 300 if out.tier == 'quick' else 3000
+    nstreams = 300 if out.tier == 'quick' else 20000
     cases = corpus()
     for i in range(nstreams):
         s = pc.random_stream(rng, 40 if i % 4 else 12)
         cases += split_cases(s, rng)
     # message boundaries: every cut inside every message of a concatenation
-    for i in range(60 if out.tier == 'quick' else 600):
+    for i in range(60 if out.tier == 'quick' else 4000):
         ms = [canon.random_message(rng, sysex_max=6) for _ in range(rng.randrange(1, 5))]
         s = [b for m in ms for b in canon.std_layout(m)]
         cases += split_cases(s, rng)
-    for _ in range(1500 if out.tier == 'quick' else 15000):
+    for _ in range(1500 if out.tier == 'quick' else 100000):
         cases.append(pc.random_pops(rng))
-    qcases = [pc.random_qops(rng) for _ in range(1500 if out.tier == 'quick' else 15000)]
+    qcases = [pc.random_qops(rng) for _ in range(1500 if out.tier == 'quick' else 100000)]
     jobs = pc.chunk_jobs(cases, 'pops', pc.COMP_POPS) + pc.chunk_jobs(qcases, 'qops', pc.COMP_QOPS)
     for tag, rec in core.pmap(pc.job, jobs):
         core.merge_into(out, rec, tag)
